@@ -36,9 +36,9 @@ def main(argv):
         table.update(others.TABLE)
         queuefam.EXTRA_PLANS["C12"] = [others.LIMITS, others.RELOAD_SWEEPS, others.CONCX]
         queuefam.EXTRA_PLANS["C02"] = [others.RELOAD_SWEEPS, others.CONCX]
-        queuefam.EXTRA_PLANS["C03"] = [others.LEASECONC, others.PULLOPS]
+        queuefam.EXTRA_PLANS["C03"] = [others.LEASECONC, others.PULLOPS, others.CONCX]
         queuefam.EXTRA_PLANS["C04"] = [others.PULLOPS, others.LEASECONC, others.CONCX]
-        queuefam.EXTRA_PLANS["C05"] = [others.PULLOPS, others.LONGPOLL, others.RELOAD_SWEEPS, others.OPFRONT]
+        queuefam.EXTRA_PLANS["C05"] = [others.PULLOPS, others.LONGPOLL, others.RELOAD_SWEEPS, others.OPFRONT, others.CONCX]
         queuefam.EXTRA_PLANS["C14"] = [others.OPFRONT]
     except ImportError:
         pass
